@@ -13,11 +13,12 @@ MANIFEST = {
     'text': 'Decides for every input: every non-reactive return of solve_Ty/solve_Py/solve_Tx/solve_Px passes the composition through normalize; the residual 1 - '
             'sum(y) (resp. x) is homogeneous of degree 0 in z exactly when every z-derived argument handed to the residual function has degree 0 (otherwise the '
             'result depends on the scale of z); the single-component shortcut returns Tsat for the T-methods and Psat for the P-methods; the per-class instance '
-            "cache key contains the chemicals and every attribute of the property package that __new__ reads. With the caller's arguments substituted, the quantity "
-            'each of the eight residual functions (plain and reactive) hands to its inner composition solve is z*Psat*gamma*pcf/P for the bubble point and '
-            'z*P*phi/(Psat*pcf) for the dew point, and the inner solves divide by phi(y) resp. gamma(x). The fallback brackets are [Tmin, Tmax] from the domain '
-            'call in order and [min Psat(Tmin), max Psat(Tmax)], identically in BubblePoint and DewPoint. Residual magnitudes, T-P inversion, bubble <= dew and '
-            'permutation invariance are numerical and not decided.',
+            "cache key contains the chemicals and every attribute of the property package that __new__ reads. With the caller's arguments substituted, the quantity"
+            ' each of the eight residual functions (plain and reactive) hands to its inner composition solve is z*Psat*gamma*pcf/P for the bubble point and '
+            'z*P*phi/(Psat*pcf) for the dew point, and the inner solves divide by phi(y) resp. gamma(x); every coefficient call in the summand and the inner solve '
+            'receive, at the positions their class signatures give to T and P, the temperature at which the saturation pressures are evaluated and the pressure of '
+            'the summand. The fallback brackets are [Tmin, Tmax] from the domain call in order and [min Psat(Tmin), max Psat(Tmax)], identically in BubblePoint and'
+            ' DewPoint. Residual magnitudes, T-P inversion, bubble <= dew and permutation invariance are numerical and not decided.',
 }
 
 BP = 'thermosteam/equilibrium/bubble_point.py'
